@@ -427,6 +427,13 @@ def InBounds (kd : Kind) (h : Hyper ℝ) (s : SState ℝ) : Prop :=
   | .trust => h.smin ≤ s.radius ∧ s.radius ≤ h.smax ∧ h.smin ≤ s.down ∧ s.down ≤ h.smax ∧
       s.damping * s.radius = 1
 
+/-- what holds for every hyper-parameters the constructors accept: the clamped quantities lie in `[min, max(min, max)]` -/
+def InRange (kd : Kind) (h : Hyper ℝ) (s : SState ℝ) : Prop :=
+  match kd with
+  | .constant => True
+  | .adaptive => h.smin ≤ s.damping ∧ s.damping ≤ max h.smin h.smax
+  | .trust => h.smin ≤ s.radius ∧ s.radius ≤ max h.smin h.smax ∧ h.smin ≤ s.down ∧ s.down ≤ max h.smin h.smax
+
 /-- non-vacuity example: 1-D problem, loss `x²`, retraction `x + d`, a "solver" that overshoots twice
 (`d = -3x`, loss ×4) and then returns the Newton step -/
 def exProb : Prob ℝ ℝ ℝ := { lossAt := fun x => x * x, retr := fun x d => x + d, neg := fun d => -d }
